@@ -445,7 +445,7 @@ class Element:
                 parts.append(mask)
                 mask = None
                 continue
-            parts.append(element.name)
+            parts.append(_path_segment(element))
         return "/" + "/".join(parts)
 
     def find(self, path, single=False, strict=True):
@@ -799,6 +799,20 @@ class Element:
 
 class Slot:
     """Marks a semi-visible Element-holding Element, like the 0 in list[0]."""
+
+
+def _path_segment(element):
+    """Return the find()-compatible path step from element.parent to element."""
+    parent = element.parent
+    # members of transparent sequences are addressed by position, not by name
+    if hasattr(parent, "member_schema"):
+        for idx, child in enumerate(parent.children):
+            if child is element:
+                return str(idx)
+    name = element.name
+    if name in (".", ".."):
+        return name.replace(".", "\\.")
+    return name.replace("/", "\\/").replace("[", "\\[")
 
 
 def validate_element(element, state, validators):
